@@ -24,6 +24,7 @@ EXPLANATION = (
     " (R5) index-specific safety effects (fixing sequence i into walk i, pruning walk i against it) are rejected or switched off when given weights pin walks to indices; (R6) flow-safe paths are used only when nothing is ignored and the flow is conserved, and are computed on the internal graph (C10.R8). "
     "strictly positive (the published characterisation of flow-decomposition safety), decided on the polynomial normal form of the stop test.  NOT decided - and "
     "not decidable here: safety of the sequences in every cover, incompatibility of the chosen sequences, soundness of the pruning."
+    ' (R7, round 3) the safety traversals are iterative; the flow-safe scan reads bounds as Python numbers, stops and reports with a float tolerance (0 < eps <= 1e-6), reports only windows of positive excess.'
 )
 DECIDED = ["mutate/restore pairing of the shared adjacency structure", "lock discipline of the per-worker pools",
            "multiplicity guard and protection-set construction conform to the reviewed description"]
